@@ -120,6 +120,18 @@ pub fn check_program(lines: &[String]) -> Result<bool, (String, String)> {
         if l1.is_empty() {
             return Ok(false);
         }
+        // LIST must describe the stored program *now*: add and delete an unrelated line and
+        // list again (a listing remembered from before an edit would be stale).
+        let _ = a.apply(&Ev::Line("5 REM x".into()));
+        let with_extra = list_of(&mut a);
+        let _ = a.apply(&Ev::Line("5".into()));
+        let again = list_of(&mut a);
+        if with_extra.len() != l1.len() + 1 || again != l1 {
+            return Err((
+                "LIST does not follow edits".to_string(),
+                format!("{:?}: LIST {:?}; after adding line 5: {:?}; after deleting it again: {:?}", lines, l1, with_extra, again),
+            ));
+        }
         let reload: Vec<String> = l1.iter().map(|l| l.trim_end_matches('\n').to_string()).collect();
         let mut b = Sess::new();
         for l in &reload {
